@@ -301,6 +301,13 @@ def run_histories(uni, catalogue, rng, count, length):
 
 
 def validate(ctx, uni, recs, meta, catalogue, label):
+  if os.environ.get("VERIF_CORRUPT") and label == "tree":
+    # self-test of the binding: corrupt ONE recorded field (a parent link of the first changed state)
+    for r in recs:
+      hit = [st for st in r["steps"] if not st["same"]]
+      if hit:
+        hit[0]["post"]["parent"][-1] = 1 if hit[0]["post"]["parent"][-1] != 1 else 2
+        break
   defs, consts = uni.mc_constants([], 0, catalogue)
   mc = "---- MODULE MC_Trace_Model ----\nEXTENDS Trace_Model\n" + defs + "\n====\n"
   # split over several TLC processes
